@@ -67,14 +67,18 @@ var GNPool = []GNPoolEntry{
 	{"uri-non-ia5", func() *der.Node { return der.CtxPrim(6, []byte("https://ex\xe4mple.com/")) }},
 	{"ip-v4-public", func() *der.Node { return GNIP([]byte{93, 184, 216, 34}) }},
 	{"ip-v4-private", func() *der.Node { return GNIP([]byte{10, 0, 0, 1}) }},
-	{"ip-v6", func() *der.Node { return GNIP([]byte{0x26, 0x06, 0x47, 0, 0x47, 0, 0, 0, 0, 0, 0, 0, 0, 0, 0x11, 0x11}) }},
+	{"ip-v6", func() *der.Node {
+		return GNIP([]byte{0x26, 0x06, 0x47, 0, 0x47, 0, 0, 0, 0, 0, 0, 0, 0, 0, 0x11, 0x11})
+	}},
 	{"ip-len5", func() *der.Node { return GNIP([]byte{1, 2, 3, 4, 5}) }},
 	{"ip-len0", func() *der.Node { return GNIP(nil) }},
 	{"ip-len3", func() *der.Node { return GNIP([]byte{1, 2, 3}) }},
 	{"ip-len15", func() *der.Node { return GNIP(make([]byte, 15)) }},
 	{"ip-len17", func() *der.Node { return GNIP(make([]byte, 17)) }},
 	{"other-upn", func() *der.Node { return GNOther("1.3.6.1.4.1.311.20.2.3", der.Str(der.TagUTF8, "alice@example.com")) }},
-	{"other-smtputf8", func() *der.Node { return GNOther("1.3.6.1.5.5.7.8.9", der.Str(der.TagUTF8, "al\xc3\xafce@example.com")) }},
+	{"other-smtputf8", func() *der.Node {
+		return GNOther("1.3.6.1.5.5.7.8.9", der.Str(der.TagUTF8, "al\xc3\xafce@example.com"))
+	}},
 	{"other-empty-smtputf8", func() *der.Node { return GNOther("1.3.6.1.5.5.7.8.9", der.Str(der.TagUTF8, "")) }},
 	{"x400", func() *der.Node { return GNX400() }},
 	{"dirname", func() *der.Node { return GNDir(Name(A(OIDC, "US"), A(OIDCN, "Dir Name"))) }},
